@@ -196,7 +196,24 @@ fn evaluate_source(
     Ok(())
 }
 
-fn main() -> ! {
+/// Native stack for the evaluator thread. The tree-walking evaluator recurses on the native stack
+/// for every nested expression of every nested call; the call-depth limit (1000) is only reached
+/// before the stack runs out if the stack is large enough for deeply nested function bodies.
+const EVALUATOR_STACK_BYTES: usize = 512 * 1024 * 1024;
+
+fn main() {
+    let evaluator = std::thread::Builder::new()
+        .name("blots".to_string())
+        .stack_size(EVALUATOR_STACK_BYTES)
+        .spawn(|| run())
+        .expect("failed to start the evaluator thread");
+
+    // run() always ends the process itself; getting here means the thread panicked
+    let _ = evaluator.join();
+    std::process::exit(101);
+}
+
+fn run() -> ! {
     // Handle shell completion generation
     if let Some(shell) = &ARGS.completions {
         let mut cmd = cli::Args::command();
